@@ -190,3 +190,5 @@ def run(P, R, tier):
     ncb = _pp2.check_copyback(P, R, _own, _pp2.site_func(P, FIT), ("m_step",))
     R.floor("BRANCH/COPYBACK (GMM fit)", nb + ncb, 2)
 
+
+EXPLANATION += " Also: (BRANCH / COPYBACK) both execution paths of fit run the same kernels with the same inputs and everything the M-step writes is stored back through the setters; (ARGROLE.mstep) the M-step function receives the machine's own switches, thresholds and the relevance-factor flag with the right polarity; (COVER.pairs)."
